@@ -25,10 +25,12 @@ head = f"""## 10. Seeded-defect results
 Every change below was written by a sub-agent in its own scratch worktree, was confirmed in a
 scratch worktree (builds, the existing suite passes with it, its demonstration fails with it and
 passes without it) and is kept under `seeded/<name>/`. Waves 1-3 ({waves.get('1',0)}+{waves.get('2',0)}+{waves.get('3',0)} changes): the
-agent saw only the text of one property. Wave 4 ({waves.get('4',0)} changes) deviates from that on purpose and is
-marked as such: those agents were additionally told, in prose, which configurations, shapes,
-sizes and fault kinds the generators draw and were asked for changes such a checker would still
-miss - they are adversarial to the machinery, not independent of it.
+agent saw only the text of one property (in waves 2 and 3 plus a list of directions to look in, written
+without reference to what the generators draw). Wave 4 ({waves.get('4',0)} changes) deviates from that on
+purpose and is marked as such: those agents were additionally told, in prose, which
+configurations, shapes, sizes and fault kinds the generators draw and were asked for changes such
+a checker would still miss - they are adversarial to the machinery, not independent of it. Wave 5
+({waves.get('5',0)} changes) went back to the property text alone (plus the list of earlier changes to avoid).
 "yes" = caught by the quick tier of the machinery as it was when the change arrived; "after
 strengthening" = first missed, then caught after the generator or oracle was extended (the last
 column says what was missing); "not claimed" = the change does not violate the property as stated
@@ -38,7 +40,11 @@ once, {cnt['after strengthening']} after strengthening, {cnt['not claimed']} not
 waves 1-3 was that misses came from the *generator* (a configuration, data shape, name, size or
 history class that was never drawn), not from the scheduler or the oracles; wave 4 added two oracle
 gaps (a fresh-instance oracle that shares process state with the instance under test; ranking
-judged on printed instead of exact outcomes) and the missing file-system seam.
+judged on printed instead of exact outcomes) and the missing file-system seam; wave 5 one more
+oracle gap (compounds were judged on counts and warm-up only, not against their members), two
+history classes (reconfiguring a live instance; a report write that fails part-way) and three
+value classes (dotted names in Sync, control characters and scalar elements in JSON, rows of
+maximal width).
 
 | seeded change | wave | what it does | needs | caught at once? | check and verdict |
 |---|---|---|---|---|---|
